@@ -775,7 +775,7 @@ package engine
 //@ func (r SliceDotsReplacer) Replace(d, cl, pos) (v, err)
 //@   at call reflect.Zero assert [C04,C09] an-empty-list-is-the-absent-list-as-the-parser-builds-it: arg0 == r.Type && len(items) == 0
 //@   at call reflect.MakeSlice assert [C04,C09] one-slot-per-element-of-a-non-empty-list: arg0 == r.Type && arg1 == len(items) && arg1 > 0
-//@   at call (reflect.Value).Set assert [C04] element-k-to-slot-k: arg0 == idx(ret("reflect.MakeSlice", 0), i) && arg1 == item
+//@   at call engine.setValue assert [C04] element-k-to-slot-k: arg0 == idx(ret("reflect.MakeSlice", 0), i) && arg1 == item
 //@   requires forall s int {r.Sections[s]} :: 0 <= s && s < len(r.Sections) ==> forall j int {r.Sections[s][j]} :: 0 <= j && j < len(r.Sections[s]) ==> r.Sections[s][j] != nil
 //@   requires r.dotAssoc != nil || len(r.Dots) == 0
 //@   loop 0
